@@ -182,3 +182,19 @@ func visible(s string) bool {
 
 
 func itoa(v int) string { return strconv.Itoa(v) }
+
+// deep(n): the bound n on the quick tier, n+2 on the thorough tier
+func deep(n int) int {
+	if verifDeep() {
+		return n + 2
+	}
+	return n
+}
+
+// deep1(n): n on the quick tier, n+1 on the thorough tier
+func deep1(n int) int {
+	if verifDeep() {
+		return n + 1
+	}
+	return n
+}
